@@ -67,6 +67,9 @@ func (sc *specCtx) trT(x *core.Sexp) (string, types.Type) {
 		if t, ok := sc.letT[a]; ok && sc.isBound(a) {
 			return a, t
 		}
+		if a == "#quote" {
+			return g.U.StrLit("\""), types.Typ[types.String]
+		}
 		if strings.HasPrefix(a, "\"") {
 			s, err := strconv.Unquote(a)
 			if err != nil {
@@ -270,6 +273,20 @@ func (sc *specCtx) trT(x *core.Sexp) (string, types.Type) {
 		name := "M_" + args[0].Atom + ".dom"
 		b := g.base(sc.st, name, "(Array Int Bool)", 1, false)
 		return "(select (select " + b + " " + sc.tr(args[1]) + ") " + sc.tr(args[2]) + ")", types.Typ[types.Bool]
+	case "mapval":
+		// raw value-array entry of a map (no presence test): usable in patterns
+		s, t := sc.trT(args[0])
+		k := sc.tr(args[1])
+		mt, ok := typeUnder(t).(*types.Map)
+		if !ok {
+			sc.fail("mapval on non-map")
+			return "0", nil
+		}
+		_, val, _, _, _ := g.mapBases(sc.st, mt)
+		if val == "" {
+			return g.zero(mt.Elem()), mt.Elem()
+		}
+		return "(select (select " + val + " " + s + ") " + k + ")", mt.Elem()
 	case "mapin", "mapget":
 		s, t := sc.trT(args[0])
 		k := sc.tr(args[1])
